@@ -114,3 +114,55 @@ From PV Require Import C12.IntrTable C12.GenTables C12.IntrOblig.
 Theorem C09_inquiry_flags_sound : forallb flag_ok gen_intrinsics = true.
 Proof. exact inquiry_flags_sound. Qed.
 Print Assumptions C09_inquiry_flags_sound.
+
+(* ---- array-section assignments (coq/C09/Sections.v): desugared into MiniFortran, no new semantics ---- *)
+From PV Require Import C09.Sections.
+
+(* the desugared block  a(ix) = rhs  (n elements, temporaries tmp 0..n-1) has the Fortran array-assignment meaning:
+   its trace is an evaluation phase that writes only temporaries followed by a store phase that reads only
+   temporaries (and index scalars): every right-hand-side element is read before any element is stored *)
+Theorem C09_section_assign_order :
+  forall tmp a ix rhs n (I : loc -> Prop) f s s' tr c,
+    idx_reads_in I ix ->
+    exec f (section_assign tmp a ix rhs n) s = Ok s' tr c ->
+    exists tr1 tr2, tr = tr1 ++ tr2 /\
+      (forall l, In l (writes tr1) -> exists k, (k < n)%nat /\ l = (tmp k, [])) /\
+      (forall l, In l (reads tr2) -> (exists k, (k < n)%nat /\ l = (tmp k, [])) \/ I l).
+Proof. exact section_assign_order. Qed.
+Print Assumptions C09_section_assign_order.
+
+(* loops whose bodies contain desugared section assignments, temporaries thread-local: in the safe class (identical
+   loop-variable subscripts, i.e. distance 0, in one dimension of every written array; the section dimension is
+   free) every schedule leaves the serial shared part *)
+Theorem C09_omp_sound_sections :
+  forall f cl temps loop s s' tr c (junk : nat -> store) (sched : list (nat * nat)),
+    safe_with (with_temps cl temps) loop = true ->
+    exec (S (S f)) [loop] s = Ok s' tr c ->
+    sched_ok loop s sched ->
+    exists so, omp_exec (S f) (with_temps cl temps) loop junk sched s = Some so /\
+               shared_eq (privatised (loopvar loop) (with_temps cl temps)) so s'.
+Proof. exact omp_sound_sections. Qed.
+Print Assumptions C09_omp_sound_sections.
+
+(* non-vacuity:  do i = 1, 3; d(2:4, i) = d(3:5, i) * 2 + e(2:4, i)  (overlap inside one column) is in the class *)
+Example C09_sections_nonvacuous :
+  safe_with (with_temps sec_cl sec_temps) sec_ok = true /\
+  (exists s' tr, exec 60 [sec_ok] sec_store = Ok s' tr CNormal) /\
+  sched_ok sec_ok sec_store [(0%nat, 2%nat); (1%nat, 1%nat); (0%nat, 0%nat)] /\
+  omp_val (omp_exec 59 (with_temps sec_cl sec_temps) sec_ok junk0 [(0%nat, 2%nat); (1%nat, 1%nat); (0%nat, 0%nat)] sec_store) (nd, [2; 1]) = Some 63 /\
+  final_val (exec 60 [sec_ok] sec_store) (nd, [2; 1]) = Some 63.
+Proof. exact sections_nonvacuous_. Qed.
+Print Assumptions C09_sections_nonvacuous.
+
+(* the overlapping / shifted case  do i = 2, 4; d(2:4, i) = d(3:5, i-1) + 1  is outside the class and a 2-thread
+   schedule (iterations in the order 3, 2, 4) leaves d(2,3) = 33 instead of the serial 43.  (The unchanged
+   ParallelLoopTrans.validate refuses this loop; the witness shows that the class boundary is not an artefact.) *)
+Theorem C09_omp_refuted_overlapping_sections :
+  safe_with (with_temps sec_cl sec_temps) sec_bad = false /\
+  exists sched l vs vo,
+    sched_ok sec_bad sec_store sched /\
+    memn (fst l) (privatised (loopvar sec_bad) (with_temps sec_cl sec_temps)) = false /\
+    final_val (exec 60 [sec_bad] sec_store) l = Some vs /\
+    omp_val (omp_exec 59 (with_temps sec_cl sec_temps) sec_bad junk0 sched sec_store) l = Some vo /\ vs <> vo.
+Proof. exact sections_refuted_. Qed.
+Print Assumptions C09_omp_refuted_overlapping_sections.
